@@ -275,6 +275,15 @@ def old_exprs(node):
     return out
 
 
+def prev_exprs(node):
+    """all ``prev(e)`` argument nodes (value of e at the start of the current loop iteration)"""
+    out = []
+    for n in ast.walk(node):
+        if isinstance(n, ast.Call) and isinstance(n.func, ast.Name) and n.func.id == 'prev':
+            out.append(n.args[0])
+    return out
+
+
 def pre_exprs(node):
     out = []
     for n in ast.walk(node):
